@@ -163,6 +163,20 @@ class PartialV:
         return ("partial", T._freeze(self.fn), T._freeze(self.args), T._freeze(self.kwargs))
 
 
+class HarnessFn:
+    """A callable supplied by a rule harness (e.g. a user vector field with a known output structure)."""
+
+    def __init__(self, name, fn):
+        self.name = name
+        self.fn = fn
+
+    def __repr__(self):
+        return f"<harness fn {self.name}>"
+
+    def freeze_key(self):
+        return ("harnessfn", self.name)
+
+
 class PyMethod:
     """A bound method of a concrete Python container (list.append ...)."""
 
@@ -472,6 +486,8 @@ class Interp:
         if isinstance(f, T.Term):
             self.calls_opaque += 1
             return self.call_term(f, args, kwargs, site)
+        if isinstance(f, HarnessFn):
+            return f.fn(self, args, kwargs, site)
         raise AnalysisError(f"cannot call value {f!r} at {site}")
 
     def call_term(self, f, args, kwargs, site):
@@ -620,6 +636,10 @@ class Interp:
                 return BuiltinV("noop")
             raise AnalysisError(f"super() has no attribute {name} at {site}")
         if isinstance(obj, T.Term):
+            if name == "ndim":
+                r = infer_ndim(obj)
+                if r is not None:
+                    return r
             return T.mk("attr", (obj, name), origin=site)
         if isinstance(obj, (list, dict, tuple, str)):
             if name in ("append", "extend", "items", "keys", "values", "index", "copy", "get", "join", "format", "startswith", "endswith", "count", "insert", "pop"):
@@ -1466,6 +1486,27 @@ _PYOPS = {
     "eq": operator.eq, "ne": operator.ne, "lt": operator.lt, "le": operator.le, "gt": operator.gt, "ge": operator.ge,
     "lshift": operator.lshift, "rshift": operator.rshift,
 }
+
+
+def infer_ndim(t):
+    """Rank of an abstract array where it is evident from the construct (else None)."""
+    if not isinstance(t, T.Term):
+        return None
+    n = t.meta.get("ndim")
+    if isinstance(n, int):
+        return n
+    op, a = t.op, t.args
+    if op in ("np.reshape",) and len(a) == 2 and isinstance(a[1], (tuple, list)):
+        return len(a[1])
+    if op in ("np.ones", "np.zeros") and a and isinstance(a[0], (tuple, list)):
+        return len(a[0])
+    if op in ("np.eye", "linalg.diagonal_matrix", "np.kron"):
+        return 2 if op != "np.kron" else None
+    if op in ("np.ones_like", "np.zeros_like", "np.abs", "neg", "np.asarray", "np.sqrt") and a:
+        return infer_ndim(a[0])
+    if op == "attr" and a[1] == "T":
+        return infer_ndim(a[0])
+    return None
 
 
 # ----------------------------------------------------------------------------
